@@ -10,7 +10,7 @@
    reference counter: the correctly signed ([receipt_ok]) timeouts for view v in the received
    sequence [hist], from distinct senders, not consumed by an earlier certificate for v. *)
 From HS Require Import Base.Prelude Crypto.Symbolic Crypto.SchemeModel Quorum.QuorumModel Cert.CertModel
-  Collect.TimeoutModel Collect.TimeoutProofs Collect.TimeoutAggProofs.
+  Collect.TimeoutModel Collect.TimeoutProofs Collect.TimeoutAggProofs Collect.TimeoutBlsProofs.
 Close Scope Z_scope.
 
 (* quorum_iff: for a message x of a view v the replica has not left, certificate creation is
@@ -72,26 +72,22 @@ Theorem C08_views_isolated : forall c st c1 c2 (xs1 xs2 : list input) v,
 Proof. exact views_isolated. Qed.
 Print Assumptions C08_views_isolated.
 
-(* tc_verifies (ECDSA, EdDSA): the TC built from >= max(2, q) receipt-checked timeouts for v from
-   distinct senders verifies at every replica with the same membership and scheme.
-   FULL STATEMENT would also cover Bls12 ([list_kind] excludes it): the BLS aggregate branch
-   (bls_combine / bls_verify, multiset equality of contributions) is not proved and the
-   correspondence does not run BLS.  n = 1 (a single signature cannot be combined) is excluded by
-   2 <= length l; for n >= 2 the quorum is >= 2 (C08_quorum_bounds). *)
-Theorem C08_tc_verifies_partial : forall c c' k v l,
-  list_kind (c_scheme c) = Some k ->
+(* tc_verifies (ECDSA, EdDSA and BLS12): the TC built from >= max(2, q) receipt-checked timeouts
+   for v from distinct senders verifies at every replica with the same membership and scheme.
+   n = 1 (a single signature cannot be combined) is excluded by 2 <= length l; for n >= 2 the
+   quorum is >= 2 (C08_quorum_bounds). *)
+Theorem C08_tc_verifies : forall c c' v l,
   c_scheme c' = c_scheme c -> c_replicas c' = c_replicas c ->
   Forall (fun t => view_sig_ok c t = true /\ t_view t = v) l ->
   NoDup (map t_id l) -> 2 <= length l -> qsize c <= length l ->
   exists t, create_tc_of c v l = Ok t /\ tc_view t = v /\ verify_tc c' t = Ok tt.
-Proof. exact tc_verifies. Qed.
-Print Assumptions C08_tc_verifies_partial.
+Proof. exact tc_verifies_all. Qed.
+Print Assumptions C08_tc_verifies.
 
-(* aggqc_verifies (ECDSA, EdDSA; same gap as above): the AggQC built from such a list is labelled
-   v, verifies at every replica with the same membership at which one of the reported QCs is
-   valid, and the high QC it yields is a valid QC reported by one of the quorum's messages *)
-Theorem C08_aggqc_verifies_partial : forall c c' st k v l,
-  list_kind (c_scheme c) = Some k ->
+(* aggqc_verifies (all three schemes): the AggQC built from such a list is labelled v, verifies at
+   every replica with the same membership at which one of the reported QCs is valid, and the
+   high QC it yields is a valid QC reported by one of the quorum's messages *)
+Theorem C08_aggqc_verifies : forall c c' st v l,
   c_scheme c' = c_scheme c -> c_replicas c' = c_replicas c -> c_genesis c' <> zero_hash ->
   Forall (fun t => msg_sig_ok c t = true /\ t_view t = v) l ->
   NoDup (map t_id l) -> 2 <= length l -> qsize c <= length l ->
@@ -99,8 +95,8 @@ Theorem C08_aggqc_verifies_partial : forall c c' st k v l,
   exists a h, create_aggqc c v (map to_timeout l) = Ok a /\ aq_view a = v /\
     verify_aggqc c' st a = Ok h /\ qc_valid c' st h = true /\
     exists t, In t l /\ h = qc_of t.
-Proof. exact aggqc_verifies. Qed.
-Print Assumptions C08_aggqc_verifies_partial.
+Proof. exact aggqc_verifies_all. Qed.
+Print Assumptions C08_aggqc_verifies.
 
 (* moves_on, both rules: a replica in view v for which the sync info built at this call
    verifies ends the call in a view >= v+1 *)
@@ -112,13 +108,13 @@ Theorem C08_moves_on : forall c st s t a1 l si w,
 Proof. exact fired_view. Qed.
 Print Assumptions C08_moves_on.
 
-(* end to end, simple rule (ECDSA, EdDSA, n >= 2): whenever the collector fires in a reachable
+(* end to end, simple rule (all schemes, n >= 2): whenever the collector fires in a reachable
    state for a view not yet left, a TC for exactly that view results, it verifies at every
    replica with the same membership, and a replica in that view moves on *)
-Theorem C08_fired_simple_partial : forall c st k c0 (xs : list input) t a1 l,
+Theorem C08_fired_simple : forall c st c0 (xs : list input) t a1 l,
   let s := run_state c st (mkS c0 []) xs in
   (s_view s <= t_view t)%N ->
-  list_kind (c_scheme c) = Some k -> c_aggqc c = false -> 2 <= length (c_replicas c) ->
+  c_aggqc c = false -> 2 <= length (c_replicas c) ->
   handed (snd (step c st s (t, a1))) = Some l ->
   exists si, snd (step c st s (t, a1)) = OFired l si /\ si_agg si = None /\
     tc_view (si_tc si) = t_view t /\
@@ -126,17 +122,17 @@ Theorem C08_fired_simple_partial : forall c st k c0 (xs : list input) t a1 l,
                 verify_tc c' (si_tc si) = Ok tt) /\
     (t_view t = s_view s -> N.succ (s_view s) <= s_view (fst (step c st s (t, a1))))%N.
 Proof.
-  intros c st k c0 xs t a1 l s Hv K Ag N2 H.
-  exact (fired_simple c st k s (map fst xs) t a1 l (Inv_run c st c0 xs) Hv K Ag (qsize_two c N2) H).
+  intros c st c0 xs t a1 l s Hv Ag N2 H.
+  exact (fired_simple c st s (map fst xs) t a1 l (Inv_run c st c0 xs) Hv (tc_ok_all c) Ag (qsize_two c N2) H).
 Qed.
-Print Assumptions C08_fired_simple_partial.
+Print Assumptions C08_fired_simple.
 
-(* end to end, aggregate rule (ECDSA, EdDSA, n >= 2): TC and AggQC are both labelled with the
+(* end to end, aggregate rule (all schemes, n >= 2): TC and AggQC are both labelled with the
    messages' view and verify wherever one reported QC is valid; a replica in that view moves on *)
-Theorem C08_fired_aggregate_partial : forall c st k c0 (xs : list input) t a1 l,
+Theorem C08_fired_aggregate : forall c st c0 (xs : list input) t a1 l,
   let s := run_state c st (mkS c0 []) xs in
   (s_view s <= t_view t)%N ->
-  list_kind (c_scheme c) = Some k -> c_aggqc c = true -> 2 <= length (c_replicas c) ->
+  c_aggqc c = true -> 2 <= length (c_replicas c) ->
   handed (snd (step c st s (t, a1))) = Some l ->
   exists si a, snd (step c st s (t, a1)) = OFired l si /\ si_agg si = Some a /\
     tc_view (si_tc si) = t_view t /\ aq_view a = t_view t /\
@@ -151,10 +147,26 @@ Theorem C08_fired_aggregate_partial : forall c st k c0 (xs : list input) t a1 l,
      (exists y, In y l /\ qc_valid c st (qc_of y) = true) ->
      t_view t = s_view s -> N.succ (s_view s) <= s_view (fst (step c st s (t, a1))))%N.
 Proof.
-  intros c st k c0 xs t a1 l s Hv K Ag N2 H.
-  exact (fired_aggregate c st k s (map fst xs) t a1 l (Inv_run c st c0 xs) Hv K Ag (qsize_two c N2) H).
+  intros c st c0 xs t a1 l s Hv Ag N2 H.
+  exact (fired_aggregate c st s (map fst xs) t a1 l (Inv_run c st c0 xs) Hv (tc_ok_all c) (agg_ok_all c) Ag (qsize_two c N2) H).
 Qed.
-Print Assumptions C08_fired_aggregate_partial.
+Print Assumptions C08_fired_aggregate.
+
+(* The collector itself, for ANY bag and ANY threshold q given at the call (the Go code reads
+   config.QuorumSize() at every add, so q may differ from call to call when the membership
+   grows): an add only looks at and only changes the entries of the new message's view — it
+   behaves as [view_add] on them — and leaves the entries of every other view untouched. *)
+Theorem C08_add_same_view : forall q bag t,
+  let T := filter (in_view (t_view t)) bag in
+  filter (in_view (t_view t)) (fst (coll_add q bag t)) = fst (view_add q T t) /\
+  snd (coll_add q bag t) = snd (view_add q T t).
+Proof. exact coll_add_same. Qed.
+Print Assumptions C08_add_same_view.
+
+Theorem C08_add_other_views : forall q bag t v,
+  v <> t_view t -> filter (in_view v) (fst (coll_add q bag t)) = filter (in_view v) bag.
+Proof. exact coll_add_other. Qed.
+Print Assumptions C08_add_other_views.
 
 Theorem C08_quorum_bounds : forall c,
   (c_replicas c <> [] -> 1 <= qsize c) /\ (2 <= length (c_replicas c) -> 2 <= qsize c).
@@ -206,3 +218,18 @@ Example C08_example_aggregate :
     verify_aggqc (ex_cfg true) ex_store a = Ok h /\ qc_view h = 0 /\
     s_view (fst (step (ex_cfg true) ex_store s (ex_honest 3 5, Ok 0))) = 4.
 Proof. vm_compute. split; [reflexivity|]. do 3 eexists. repeat split. Qed.
+
+(* the same with BLS12 aggregates (aggregate rule, receiver in view 5) *)
+Definition bx_cfg : cfg := mkCfg Bls12 [2; 3; 9; 12] 1 true.
+Definition bx_sig (lab who : N) (m : msg) : option qsig := Some (QBls [lab] (Some [(who, m)])).
+Definition bx_honest (i v : N) : tmsg :=
+  mkT i v (bx_sig i i (MView v)) (bx_sig i i (MTimeout i v (Some 1))) (Some ex_qc).
+Example C08_example_bls :
+  let hist := [ (mkT 12 5 (bx_sig 12 2 (MView 5)) (bx_sig 12 12 (MTimeout 12 5 (Some 1))) (Some ex_qc), Ok 0);  (* relabelled *)
+                (bx_honest 9 5, Ok 0); (bx_honest 3 6, Ok 0); (bx_honest 2 5, Ok 0) ] in
+  let s := run_state bx_cfg ex_store (mkS 5 []) hist in
+  exists si a h, step bx_cfg ex_store s (bx_honest 3 5, Ok 0) =
+     (mkS 6 [bx_honest 3 6], OFired [bx_honest 9 5; bx_honest 2 5; bx_honest 3 5] si) /\
+    verify_tc bx_cfg (si_tc si) = Ok tt /\ si_agg si = Some a /\
+    verify_aggqc bx_cfg ex_store a = Ok h.
+Proof. vm_compute. do 3 eexists. repeat split. Qed.
